@@ -21,6 +21,7 @@ import BB.Oracle.CleanGate
 import BB.Oracle.Lifecycle
 import BB.Oracle.Exclusive
 import BB.Oracle.Caster
+import BB.Oracle.PubSub
 
 open BB.Oracle
 
@@ -42,7 +43,8 @@ def families : List (String × Fam) := [
   ("lifecycle", LifecycleFam.fam),
   ("exclusive", ExclusiveFam.fam),
   ("casterword", CasterWordFam.fam),
-  ("caster", CasterFam.fam)
+  ("caster", CasterFam.fam),
+  ("pubsub", PubSubFam.fam)
 ]
 
 structure OAcc (σ : Type) where
